@@ -325,6 +325,10 @@ type IndexKeyV struct {
 	Fields []string // Go field names of the row fixed by this key
 	Vals   []Val
 	Name   string
+	// PrefixOnly: index (in Fields) of a trailing string / bytes component that a List over this key
+	// matches by byte prefix only — the last component of a complete primary or unique key is encoded
+	// without a terminator, so List(key("uusd")) also yields the row of "uusdc". -1: none.
+	PrefixOnly int
 }
 
 func (k *IndexKeyV) vs() string { return k.Name }
